@@ -265,6 +265,7 @@ def tests(work, jobs):
 # checks ordered by quick wall time; per-file relevance first
 SPEED = ["C17", "C11", "C10", "C12", "C01", "C07", "C20", "C13", "C06", "C05", "C14", "C04", "C19", "C03", "C18",
          "C09", "C08", "C02", "C16", "C15"]
+SLOW = {"C02", "C03", "C08", "C09", "C15", "C16", "C19"}
 FAST = ["C17", "C11", "C10", "C12", "C01", "C07", "C20", "C14"]
 REL = {
     "a816/writers.py": ["C11", "C12", "C13"],
@@ -290,9 +291,12 @@ REL = {
 def checks(work, jobs, wrk):
     muts = {m["id"]: m for m in json.load(open(os.path.join(work, "mutants.json")))}
     tres = json.load(open(os.path.join(work, "tests.json")))
-    resf = os.path.join(work, "checks.json")
+    resf = os.path.join(work, "checks2.json" if os.environ.get("PHASE") == "2" else "checks.json")
     res = json.load(open(resf)) if os.path.exists(resf) else {}
     todo = [muts[int(i)] for i, ok in tres.items() if ok and i not in res]
+    if os.environ.get("PHASE") == "2":
+        p1 = json.load(open(os.path.join(work, "checks.json")))
+        todo = [m for m in todo if str(m["id"]) in p1 and not p1[str(m["id"])]["hit"]]
     todo.sort(key=lambda m: m["id"])
     import queue
     free = queue.Queue()
@@ -307,6 +311,10 @@ def checks(work, jobs, wrk):
             # the checks anchored in the mutated file, then the fast general ones; ALL=1 runs every check
             rel = REL.get(m["file"], [])
             order = rel + [c for c in (SPEED if os.environ.get("ALL") else FAST) if c not in rel]
+            if os.environ.get("PHASE") == "2":
+                order = [c for c in rel if c in SLOW]          # survivors of phase 1: the slow relevant checks
+            elif not os.environ.get("ALL"):
+                order = [c for c in order if c not in SLOW]    # phase 1: fast checks only
             env = dict(os.environ, A816_REPO=d, VERIF_OUT=os.path.join(d, ".verif-out"), VERIF_WORKERS=str(wrk))
             hit, ran = None, []
             for c in order:
